@@ -184,3 +184,20 @@ def run(ctx):
                 "non-trivial = (model,state) with a branching tree and nv>=3, or nv>=4" % (nmax, menu or list(A.JOINTS)))
     ctx.assumptions = ["reference built from mj_jacBodyCom and compiled body_mass/body_inertia (C07/C35 cover those)",
                        "tolerance 1e-9 relative; 1e-7 for solveM round trip"]
+
+
+def replay(ctx, path):
+    """Re-evaluate one recorded model: ./check C06 --replay <file>"""
+    import json as _json
+    import re as _re
+    rec = _json.load(open(path))
+    mm = _re.search(r"parents=(\(.*?\)) joints=(\(.*?\)) arm(?:ature)?=(\d) ten(?:don)?=(\d)", rec["key"] + " " + rec["what"])
+    if not mm:
+        print("cannot parse the case from", path)
+        return 2
+    par, js = eval(mm.group(1)), eval(mm.group(2))
+    part = core.Part()
+    check_model(mj.load(), part, par, js, (int(mm.group(3)), int(mm.group(4))))
+    for v in part["violations"]:
+        print("VIOLATION", v["key"], "|", v["what"])
+    return 1 if part["violations"] else 0
